@@ -462,7 +462,7 @@ def _do_rewrite(source: str, rewrite: _Rewrite, *, fix_function_name: str = "") 
 
         return new_source
 
-    lines = new_code.splitlines(keepends=True)
+    lines = core.split_lines(new_code)
     indent = getattr(old, "col_offset", getattr(new, "col_offset", 0))
     indents = {**{i: indent for i in range(len(lines))}, 0: len(code) - len(code.lstrip(" "))}
 
@@ -541,7 +541,7 @@ def _insert_nodes(source: str, additions: Collection[ast.AST]) -> str:
     Returns:
         str: Code with added asts.
     """
-    lines = source.splitlines(keepends=True)
+    lines = core.split_lines(source)
 
     for node in sorted(additions, key=lambda n: n.lineno, reverse=True):
         addition = core.unparse(node)
@@ -550,7 +550,7 @@ def _insert_nodes(source: str, additions: Collection[ast.AST]) -> str:
         lines = (
             lines[: node.lineno]
             + ["\n"]
-            + [" " * col_offset + line for line in addition.splitlines(keepends=True)]
+            + [" " * col_offset + line for line in core.split_lines(addition)]
             + ["\n"] * (not addition.endswith("\n"))
             + lines[node.lineno :]
         )
